@@ -197,7 +197,7 @@ def exVal : Val :=
 
 theorem ex_hyps : exTy.wf ∧ exTy.hasTy exVal := by
   refine ⟨?_, ?_⟩
-  · simp [exTy, Ty.wf, fieldsWf, validWidth, Ty.wt, Ty.isMap]
+  · simp [exTy, Ty.wf, fieldsWf, validWidth, Ty.wt, Ty.isMap, Ty.isProtoSlice]
   · simp [exTy, exVal, Ty.hasTy, fieldsHaveTy, intRange, keysDistinct, Val.beq]
 
 /-- the documented encoding of the example, byte by byte:
@@ -305,7 +305,7 @@ example : Spec.encode goldTy goldVal = goldBytes := by decide +kernel
 
 theorem gold_hyps : goldTy.wf ∧ goldTy.hasTy goldVal := by
   refine ⟨?_, ?_⟩
-  · simp [goldTy, Ty.wf, fieldsWf, validWidth, Ty.wt, Ty.isMap]
+  · simp [goldTy, Ty.wf, fieldsWf, validWidth, Ty.wt, Ty.isMap, Ty.isProtoSlice]
   · simp [goldTy, goldVal, Ty.hasTy, fieldsHaveTy, intRange]
 
 /-- hence (theorem (a)) the model's `Marshal` of that value is the golden file. -/
@@ -331,7 +331,7 @@ theorem p_hyps : (Ty.struct "P" pFs).wf ∧ Ty.rtShape false (.struct "P" pFs)
     ∧ (Spec.render (Spec.fieldsOf pFs pVs)).length < 2 ^ 64
     ∧ pRecs.Perm (Spec.fieldsOf pFs pVs) ∧ SameFieldOrder pRecs (Spec.fieldsOf pFs pVs) := by
   refine ⟨?_, ?_, ?_, by decide +kernel, by decide +kernel, SpecP.sameOrder_of_all _ _ (by decide +kernel)⟩
-  · simp [pFs, Ty.wf, fieldsWf, validWidth, Ty.wt, Ty.isMap]
+  · simp [pFs, Ty.wf, fieldsWf, validWidth, Ty.wt, Ty.isMap, Ty.isProtoSlice]
   · simp [pFs, Ty.rtShape, fieldsRtShape, Ty.keySafe]
   · simp [pFs, pVs, Ty.hasTy, fieldsHaveTy, intRange, keysDistinct, Val.beq]
 
